@@ -17,13 +17,44 @@ import (
 // create an ObjectDeployment directly; tests that run those monitors over a Package's deployment set it to the package name.
 var DepName = "dep"
 
+// DepCluster: the scenario's deployment is a ClusterObjectDeployment (its revisions are ClusterObjectSets). Set by NewRunner
+// from Scenario.ClusterDep; cases run one after the other in a process.
+var DepCluster bool
+
+func depKind() string    { return setKind(DepCluster, "ObjectDeployment") }
+func depSetKind() string { return setKind(DepCluster, "ObjectSet") }
+func depNS() string {
+	if DepCluster {
+		return ""
+	}
+	return engine.NSMain
+}
+func isDepController(c string) bool {
+	if DepCluster {
+		return c == engine.CtrlClusterObjectDeployment
+	}
+	return c == engine.CtrlObjectDeployment
+}
+
+// depObject returns an empty typed deployment object of the scenario's flavour and accessors for the shared spec fields.
+func depObject() (client.Object, *corev1alpha1.ObjectDeploymentSpec) {
+	if DepCluster {
+		d := &corev1alpha1.ClusterObjectDeployment{}
+		d.Name = DepName
+		return d, (*corev1alpha1.ObjectDeploymentSpec)(&d.Spec)
+	}
+	d := &corev1alpha1.ObjectDeployment{}
+	d.Name, d.Namespace = DepName, engine.NSMain
+	return d, &d.Spec
+}
+
 // isDepSet: PKO labels every ObjectSet it creates for a deployment with the deployment's name.
 func isDepSet(o map[string]any) bool {
 	return kubesim.LabelsOf(o)["package-operator.run/object-deployment"] == DepName
 }
 
 func depKey() kubesim.Key {
-	return kubesim.Key{Group: engine.PKOGroup, Kind: "ObjectDeployment", Namespace: engine.NSMain, Name: DepName}
+	return kubesim.Key{Group: engine.PKOGroup, Kind: depKind(), Namespace: depNS(), Name: DepName}
 }
 
 func (r *Runner) tmpl(i int) SetSpec {
@@ -35,6 +66,7 @@ func (r *Runner) tmpl(i int) SetSpec {
 
 func (r *Runner) depTemplate(i int) corev1alpha1.ObjectSetTemplate {
 	t := r.tmpl(i)
+	t.Cluster = DepCluster
 	return corev1alpha1.ObjectSetTemplate{
 		Metadata: metav1.ObjectMeta{Labels: map[string]string{"dep": DepName}},
 		Spec:     r.TemplateSpec(t, nil),
@@ -44,26 +76,24 @@ func (r *Runner) depTemplate(i int) corev1alpha1.ObjectSetTemplate {
 func init() {
 	extraOps["createDeploy"] = func(r *Runner, st Step) error {
 		r.W.ActAs("user", func(c client.Client) {
-			d := &corev1alpha1.ObjectDeployment{}
-			d.Name = DepName
-			d.Namespace = engine.NSMain
-			d.Spec.Selector = metav1.LabelSelector{MatchLabels: map[string]string{"dep": DepName}}
-			d.Spec.Template = r.depTemplate(st.I)
+			d, spec := depObject()
+			spec.Selector = metav1.LabelSelector{MatchLabels: map[string]string{"dep": DepName}}
+			spec.Template = r.depTemplate(st.I)
 			if st.J > 0 {
-				d.Spec.RevisionHistoryLimit = ptr.To(int32(st.J - 1))
+				spec.RevisionHistoryLimit = ptr.To(int32(st.J - 1))
 			}
-			d.Spec.Paused = st.On
+			spec.Paused = st.On
 			_ = c.Create(r.W.Ctx, d)
 		})
 		return nil
 	}
 	extraOps["editDeploy"] = func(r *Runner, st Step) error {
 		r.W.ActAs("user", func(c client.Client) {
-			d := &corev1alpha1.ObjectDeployment{}
-			if c.Get(r.W.Ctx, client.ObjectKey{Namespace: engine.NSMain, Name: DepName}, d) != nil {
+			d, spec := depObject()
+			if c.Get(r.W.Ctx, client.ObjectKey{Namespace: depNS(), Name: DepName}, d) != nil {
 				return
 			}
-			d.Spec.Template = r.depTemplate(st.I)
+			spec.Template = r.depTemplate(st.I)
 			if c.Update(r.W.Ctx, d) == nil {
 				r.Labels["deploy-edited"] = true
 			}
@@ -72,25 +102,25 @@ func init() {
 	}
 	extraOps["pauseDeploy"] = func(r *Runner, st Step) error {
 		r.W.ActAs("user", func(c client.Client) {
-			d := &corev1alpha1.ObjectDeployment{}
-			if c.Get(r.W.Ctx, client.ObjectKey{Namespace: engine.NSMain, Name: DepName}, d) != nil {
+			d, spec := depObject()
+			if c.Get(r.W.Ctx, client.ObjectKey{Namespace: depNS(), Name: DepName}, d) != nil {
 				return
 			}
-			d.Spec.Paused = st.On
+			spec.Paused = st.On
 			_ = c.Update(r.W.Ctx, d)
 		})
 		return nil
 	}
 	extraOps["historyLimit"] = func(r *Runner, st Step) error {
 		r.W.ActAs("user", func(c client.Client) {
-			d := &corev1alpha1.ObjectDeployment{}
-			if c.Get(r.W.Ctx, client.ObjectKey{Namespace: engine.NSMain, Name: DepName}, d) != nil {
+			d, spec := depObject()
+			if c.Get(r.W.Ctx, client.ObjectKey{Namespace: depNS(), Name: DepName}, d) != nil {
 				return
 			}
 			if st.I <= 0 {
-				d.Spec.RevisionHistoryLimit = nil
+				spec.RevisionHistoryLimit = nil
 			} else {
-				d.Spec.RevisionHistoryLimit = ptr.To(int32(st.I - 1))
+				spec.RevisionHistoryLimit = ptr.To(int32(st.I - 1))
 			}
 			_ = c.Update(r.W.Ctx, d)
 		})
@@ -98,8 +128,7 @@ func init() {
 	}
 	extraOps["deleteDeploy"] = func(r *Runner, st Step) error {
 		r.W.ActAs("user", func(c client.Client) {
-			d := &corev1alpha1.ObjectDeployment{}
-			d.Name, d.Namespace = DepName, engine.NSMain
+			d, _ := depObject()
 			_ = c.Delete(r.W.Ctx, d)
 		})
 		return nil
@@ -109,7 +138,7 @@ func init() {
 // DeploymentSets lists the ObjectSets of the deployment (by label), sorted by revision then name.
 func (r *Runner) DeploymentSets() []map[string]any {
 	var out []map[string]any
-	for _, k := range r.W.ListKeys(engine.PKOGroup, "ObjectSet") {
+	for _, k := range r.W.ListKeys(engine.PKOGroup, depSetKind()) {
 		o := r.W.Store.PeekNoCopy(k)
 		if isDepSet(o) {
 			out = append(out, o)
